@@ -5,5 +5,6 @@ CONSTANTS NP = 20 NA = 20 NS = 3 V6 = {15, 16, 17, 18, 19, 20} BlackAddr = {13, 
 INVARIANT TraceAccepted
 INVARIANT TypeOK
 INVARIANT LookupsAgree
+INVARIANT HistoryAgrees
 INVARIANT BlacklistedNeverVerified
 INVARIANT SnapshotRoundTrip
